@@ -42,6 +42,14 @@ class EStrMix(str, enum.Enum):
     ONE = "1"
     T = "true"
     N = "null"
+    B = "A"  # the value is the NAME of another member
+
+class EFlag(enum.Flag):
+    R = 4
+    W = 2
+    X = 1
+    RWX = 7   # a named multi-bit member
+    NONE = 0  # the named zero member
 
 class EOther(enum.Enum):
     Z = "z"
@@ -209,6 +217,21 @@ class PCinit:
     def __repr__(self):
         return f"PCinit(a={self.a!r}, b={self.b!r})"
 
+class PCfin:
+    """annotated plain class whose second field is qualified Final (an instance attribute, not a class variable)"""
+    a: int
+    b: typing.Final[str]
+    __tlmc_fields__ = ("a", "b")
+    def __init__(self, a: int, b: str = "x"):
+        self.a = a
+        self.b = b
+    def __eq__(self, o):
+        return type(o) is type(self) and (self.a, self.b) == (o.a, o.b)
+    def __hash__(self):
+        return hash((self.a, self.b))
+    def __repr__(self):
+        return f"PCfin(a={self.a!r}, b={self.b!r})"
+
 class PCcv:
     """annotated plain class with a ClassVar next to its fields"""
     kind: typing.ClassVar[str] = "pccv"
@@ -252,6 +275,10 @@ class StrSub(str):
     pass
 
 class FloatSub(float):
+    pass
+
+class DurSub(datetime.timedelta):
+    # a user subclass of timedelta
     pass
 
 class DateSub(datetime.date):
